@@ -19,8 +19,12 @@ def to_ms(d):
     return (d - EPOCH) // MS
 
 
-def gen_spec(rng, tier="quick", for_crash=False):
+def gen_spec(rng, tier="quick", for_crash=False, anchor=None):
+    """anchor = (year, month, day): a date / datetime timeline whose earliest or latest datum is that calendar day (several timelines of one
+    process then have domain ends — and the instants the axis code probes around them — in common, at different spans and tick units)"""
     kind = rng.choice(["datetime", "datetime", "date", "number", "number"] + (["time"] if for_crash else []))
+    if anchor is not None:
+        kind = rng.choice(["datetime", "date"])
     n = rng.choice([1, 2, 3, 4, 6, 8, 12, 18, 25] + ([40, 80] if tier != "quick" else []))
     if for_crash and rng.random() < 0.1:
         n = rng.choice([1, 1, 2])
@@ -43,22 +47,28 @@ def gen_spec(rng, tier="quick", for_crash=False):
         ts = [t0 + rng.randint(0, span) for _ in range(n)]
         if rng.random() < 0.3:
             ts = [t // 1000 * 1000 for t in ts]
-    if kind in ("date", "datetime") and rng.random() < 0.3:
+    if kind in ("date", "datetime") and (anchor is not None or rng.random() < 0.3):
         # calendar edges: the earliest or the latest datum is a month end / leap day / year end, at spans that select day, month and
         # year ticks (the code steps such dates by months and years when it makes the axis domain nice and enumerates ticks)
         y = rng.choice([1904, 1996, 2000, 2020, 2024, 2100, rng.randint(1900, 2190)])
         leap = y % 4 == 0 and (y % 100 != 0 or y % 400 == 0)
         mo, dd = rng.choice([(1, 29), (1, 30), (1, 31), (3, 31), (5, 31), (8, 31), (10, 31), (12, 31), (2, 29 if leap else 28), (2, 28), (1, 1), (3, 1)])
+        if anchor is not None:
+            y, mo, dd = anchor
         a = datetime(y, mo, dd)
         spans = rng.choice([1, 2, 7, 20, 31, 59, 150, 300, 365, 366, 800, 2000, 5000, 20000])
         edge_last = rng.random() < 0.6
         days = [rng.randint(0, spans) for _ in range(max(0, n - 1))] + [0]
+        if anchor is not None:
+            # spans that select DIFFERENT tick units with the SAME step (5 s / 5 min / 5 years; 3 h / 3 months; 2 days / 2 years), the far end exactly one span away
+            spans = rng.choice([15, 20, 31, 5000, 7000, 1, 800, 20000] + ([0.0006, 0.02, 0.06] if kind == "datetime" else [2000, 150]))
+            days = [rng.uniform(0, spans) if kind == "datetime" else rng.randint(0, int(spans)) for _ in range(max(0, n - 2))] + [spans, 0]
         ds = [a - timedelta(days=k) if edge_last else a + timedelta(days=k) for k in days]
         ds = [d for d in ds if 1900 <= d.year <= 2199] or [a]
         if kind == "date":
             ts = [d.date().isoformat() for d in ds]
         else:
-            tod = rng.choice([0, 0, 1, 43200000, DAY - 1, rng.randint(0, DAY - 1)])
+            tod = rng.choice([0, 0, 1, 43200000, DAY - 1, rng.randint(0, DAY - 1)]) if anchor is None else rng.choice([0, 0, 0, 1, DAY - 1])
             ts = [to_ms(d) + (tod if k == len(ds) - 1 else rng.choice([0, rng.randint(0, DAY - 1)])) for k, d in enumerate(ds)]
     micro = None
     if kind == "datetime" and rng.random() < 0.12:
